@@ -937,9 +937,12 @@ fn run_history(cfg: Cfg, root: PathBuf, auto_cleanup: bool, plans: &mut dyn FnMu
         let kind = plan.kind();
         if let Some(e) = w.stale_errno.get() {
             // the errno of opening a vanished file by handle is a host answer: normalise to ESTALE
-            if e != 116 && so.is_err && so.errno == e {
+            // (ESTALE or ENOMEM, and not necessarily the same one for the harness's own probe and
+            // for the call the implementation makes a moment later: ext4 under memory pressure)
+            if so.is_err && so.errno != 116 && (so.errno == e || so.errno == 12) {
+                let was = so.errno;
                 so.errno = 116;
-                so.res = so.res.replace(&format!("e{}", e), "e116");
+                so.res = so.res.replace(&format!("e{}", was), "e116");
             }
         }
         let aliased: Vec<u64> = w.alias_now.clone();
